@@ -177,7 +177,13 @@ def c03_r2(ctx: Ctx, rule):
             res.fail(rule.id, "table-mutation::%s::%s" % (q, norm(n)), ctx.loc(q, n), "%s changes the prefix table with %s" % (short(q), how),
                      "bindings are dropped or replaced wholesale")
             continue
-        if isinstance(key, ast.Constant):
+        folded_key = None
+        if key is not None and not isinstance(key, ast.Constant):
+            try:
+                folded_key = ctx.eval_in(q, key)
+            except AnalysisError:
+                folded_key = None
+        if isinstance(key, ast.Constant) or isinstance(folded_key, str):
             res.ob("%s: constant-key store %s (default-namespace slot)" % (short(q), norm(n)), nontrivial=False)
             res.exceptions.append("%s: `%s` binds the reserved default slot; re-binding a default is excluded by the property's usage discipline" % (short(q), norm(n)))
             continue
@@ -224,14 +230,43 @@ def uri_token(ctx: Ctx, fi, e, arg_ns_names, depth=0, visiting=frozenset()):
         return "?call %s" % norm(e.func)
     if isinstance(e, ast.Subscript):
         base = norm(e.value)
-        if base == "self._uri_map":
-            return uri_token(ctx, fi, e.slice, arg_ns_names, depth + 1, visiting)  # invariant _uri_map[u].uri == u
-        if base == "self._rename_map":
-            return uri_token(ctx, fi, e.slice, arg_ns_names, depth + 1, visiting)  # invariant _rename_map[n].uri == n.uri
+        if base.startswith("self.") and base[5:] in uri_keyed_fields(ctx):
+            # invariant F[k].uri == uri(k), established by checking every store into F (uri_keyed_fields)
+            return uri_token(ctx, fi, e.slice, arg_ns_names, depth + 1, visiting)
         if base == "self":
             return guarded_equal(fi, e, arg_ns_names)
         return "?%s" % norm(e)
     return "?%s" % norm(e)
+
+
+def uri_keyed_fields(ctx: Ctx):
+    """Owned dict fields F of NamespaceManager with the invariant `F[k] is a namespace whose URI is the URI denoted by k`
+    (k a URI string or a namespace).  Greatest fixed point: assume all, drop a field when one of its stores (all of which
+    are in add_namespace, by C03.R1) does not show key and value carrying the same argument URI."""
+    if "uri_keyed_fields" in ctx._cache:
+        return ctx._cache["uri_keyed_fields"]
+    ft, owned, default = manager_fields(ctx)
+    cand = {f for f in owned if ft[f].container in ("dict",)}
+    ctx._cache["uri_keyed_fields"] = set(cand)
+    aq = NSM + ".add_namespace"
+    af = ctx.fn(aq)
+    ap = {af.params[1]}
+    changed = True
+    while changed:
+        changed = False
+        for s in mutation_sites(ctx, set(cand)):
+            if s.how != "setitem" or not isinstance(s.node, ast.Assign) or s.field not in ctx._cache["uri_keyed_fields"]:
+                continue
+            if s.func != aq:
+                ctx._cache["uri_keyed_fields"].discard(s.field)
+                changed = True
+                continue
+            kt = uri_token(ctx, af, s.node.targets[0].slice, ap)
+            vt = uri_token(ctx, af, s.node.value, ap)
+            if kt != "U0" or vt != "U0":
+                ctx._cache["uri_keyed_fields"].discard(s.field)
+                changed = True
+    return ctx._cache["uri_keyed_fields"]
 
 
 def guarded_equal(fi, e, arg_ns_names):
@@ -314,8 +349,9 @@ def c03_r3(ctx: Ctx, rule):
             if tok != "U0":
                 res.fail(rule.id, "add_namespace-summary::%s" % norm(n.value), ctx.loc(aq, n), "add_namespace can return %s, whose URI is not shown to be the argument's (%s)" % (norm(n.value), tok[1:]),
                          "add_namespace(prefix, U) hands back a namespace for another URI; every name minted from it is wrong")
-        if isinstance(n, ast.Assign) and isinstance(n.targets[0], ast.Subscript) and norm(n.targets[0].value) in ("self._uri_map", "self._rename_map", "self._prefix_renamed_map", "self._namespaces", "self"):
-            kt = uri_token(ctx, af, n.targets[0].slice, ap) if norm(n.targets[0].value) in ("self._uri_map", "self._rename_map") else "U0"
+        tbl = norm(n.targets[0].value) if isinstance(n, ast.Assign) and isinstance(n.targets[0], ast.Subscript) else ""
+        if tbl == "self" or (tbl.startswith("self.") and tbl[5:] in manager_fields(ctx)[1]):
+            kt = uri_token(ctx, af, n.targets[0].slice, ap) if tbl[5:] in uri_keyed_fields(ctx) else "U0"
             vt = uri_token(ctx, af, n.value, ap)
             res.ob("add_namespace store %s: key/value carry the argument's URI: %s/%s" % (norm(n), kt, vt))
             if kt != "U0" or vt != "U0":
